@@ -35,7 +35,7 @@ func (c *c20Case) Key() string {
 	return c.Part + "|" + c.Src + "|" + strings.Join(c.Over, ",") + fmt.Sprint(c.Site)
 }
 
-var c20Inline = []string{"w", " ", "*", "**", "_", "`code`", `[t](u "ti")`, "![a](s)", "<http://x.y>", "<b>", "&amp;", "&copy;", "<", "&", `\*`, `\<`, "{{ x }}", "  \n", "~~", "a < b", "\n", "`a\nb`", "`x\\|y`", `[e](u\_x "t\*")`, `[q](http://a.b/?x=1&amp;y=2 "a &amp; b")`, "![a *b* <c> &amp;](s)", "<!-- c -->", "www.ex.org/p", "https://pl.ex.net/y?a=1&b=2", "<dev@ex.com>", "me@ex.org", "![a `c\\*d` &amp;](s)", "[l `c\\*d`](u)", "&nbsp;", "[f](false)", "[m](a{{x}}b \"t{{ x }}\")"}
+var c20Inline = []string{"w", " ", "*", "**", "_", "`code`", `[t](u "ti")`, "![a](s)", "<http://x.y>", "<b>", "&amp;", "&copy;", "<", "&", `\*`, `\<`, "{{ x }}", "  \n", "~~", "a < b", "\n", "`a\nb`", "`x\\|y`", `[e](u\_x "t\*")`, `[q](http://a.b/?x=1&amp;y=2 "a &amp; b")`, "![a *b* <c> &amp;](s)", "<!-- c -->", "www.ex.org/p", "https://pl.ex.net/y?a=1&b=2", "<dev@ex.com>", "me@ex.org", "![a `c\\*d` &amp;](s)", "[l `c\\*d`](u)", "&nbsp;", "[f](false)", "[m](a{{x}}b \"t{{ x }}\")", `[t](u "false")`, `![i](s "0")`, "![two\nlines](s)"}
 
 var c20Ref = goldmark.New(goldmark.WithExtensions(extension.GFM), goldmark.WithRendererOptions(ghtml.WithUnsafe()))
 
@@ -115,7 +115,7 @@ var c20Blocks = []string{
 	"> quote\n> > nested\n", "- a\n- b\n", "1. one\n2. two\n", "3. three\n4. four\n", "- loose\n\n- items\n", "- outer\n  - inner\n", "- [ ] todo\n- [x] done\n",
 	"| a | b |\n|:-:|---|\n| 1 | 2 |\n", "---\n", "0. zero\n1. one\n", "<div>\nhtml block\n</div>\n", "<!-- comment block -->\n", "<pre>\nraw\n\n*pre*\n</pre>\n", "<div class=\"raw\">html *not md*</div>\n", "text with `code` and [link](http://l \"T\") and ![img](i.png)\n", "line  \nhard break\n",
 	// code blocks: tabs that straddle the indentation column inside containers, a document that ends inside a code block
-	"- foo\n\n\t\tbar\n\t\tbaz\n", ">\t\tfoo\n", "1. a\n\n   ```\n\tx\n   ```\n", "\tcode\twith tabs\n", "- a\n\n      code in item\n", "```\nfoo", "para\n\n    last line", "~~~go\n\tx := 1\n~~~\n", "| a |\n|---|\n", "| a | b |\n|:-:|--:|\n",
+	"- foo\n\n\t\tbar\n\t\tbaz\n", ">\t\tfoo\n", "1. a\n\n   ```\n\tx\n   ```\n", "\tcode\twith tabs\n", "- a\n\n      code in item\n", "```\nfoo", "para\n\n    last line", "~~~go\n\tx := 1\n~~~\n", "| a |\n|---|\n", "| a | b |\n|:-:|--:|\n", "```false\nx\n```\n", "~~~0\nx\n~~~\n",
 }
 
 // (the inline constructs come first: some block samples end inside an unterminated code block)
